@@ -806,6 +806,12 @@ impl Model {
                 if !kind_ok {
                     return Err(format!("{what}: rejected with {kind:?} ({msg})"));
                 }
+                // a rejected commit leaves what was at the address as it was; on an empty
+                // address it may leave its own link behind (the data it points to is valid)
+                let own_leftover = prev.is_none() && matches!(&now, Some(CState::Data { bytes, symlink: true }) if **bytes == **data);
+                if now != prev && !own_leftover {
+                    return Err(format!("{what}: the commit was rejected, yet the content path holds {} afterwards (before: {})", cshort(&now), cshort(&prev)));
+                }
                 match now {
                     Some(n) => {
                         self.content.insert(addr, n);
